@@ -138,7 +138,7 @@ def gen_case(seed):
                 kind = r.choice(["set", "set", "pub"]); key = r.choice(["k", "q", "a/b"])
                 buffers[name][1].add((kind, key))
                 ops.append(f"later {name} {kind} {xs(key)} {js(val())}")
-            ops.append(f"sleep {DELAY * 3}")
+            ops.append(f"sleep {DELAY * 3} {sum(len(pend) for _, pend in buffers.values())}")      # (the harness waits until that many have left)
             for nm, (bh, pend) in buffers.items():
                 tr.take(bh, len(pend)); pend.clear()
         else: tr.take(h); ops.append(f"call {h} lock {xs(r.choice(['l', 'l/m']))}")
